@@ -3,7 +3,7 @@
 //@ defs: -DUT_STD_ASSERT
 //@ enforce: xcmc_attr_get_all
 //@ replace: xvu_attr_cb
-//@ flags: --no-array-field-sensitivity
+//@ flags: --no-array-field-sensitivity --slice-formula
 //@ props: C14
 //@ expect: postcondition>=5 canary=5
 //@ timeout: 900
